@@ -11,7 +11,7 @@ require (
 	google.golang.org/grpc v1.9.2
 )
 
-replace github.com/youzan/ZanRedisDB => /tmp/sv-C04-25487
+replace github.com/youzan/ZanRedisDB => /repo
 
 replace github.com/youzan/gorocksdb => /verif/build/third_party/gorocksdb
 
